@@ -6,7 +6,7 @@ RULE = ("direction A: TLC enumerates spec/FamC17.tla: all histories of one and t
         "variable, comparison, parameter; true and false) / read / exists over 4 paths (plain, second file, a path with a blank, a path in a sub-directory) and 3 "
         "(thorough 6) contents, at top level and inside a function, plus loop / variable-path / computed-path / read-back shapes. Every read and exists result is printed; "
         "stdout, status, stderr and the final directory contents are validated against TshDyn's fs. TLC checks WriteLocal (a write changes exactly one path) and "
-        "LineStore on every transition/state. Distinct = distinct source text with a defined meaning.")
+        "LineStore on every transition/state. Direction B: seeded random histories of 6-14 statements (harness/genworld.go) over 8 paths (literal, variable, computed), contents from variables, concatenation, itoa and earlier reads, run-time flags, loops, branches, functions called twice, input(). Distinct = distinct source text with a defined meaning.")
 ASSUME = ["spec/TshDyn.tla WriteFile/ApplyRead/ApplyExists state the line-store semantics", "only /bin/bash 5.2 and a POSIX file system are observed"]
 
 
@@ -15,5 +15,8 @@ def run(ctx):
     ctx.exhaustive["FamC17"] = True
     failures = progflow.judge(ctx, fam, "fam")
     failures += corpus.judge(ctx, "C17")
+    # direction B: random histories (harness/genworld.go): writes/appends with run-time flags and paths, guarded reads, exists, input(), in loops, branches and functions
+    gen = progflow.generate(ctx, "files", 120 if ctx.tier == "quick" else 3000)
+    failures += progflow.judge(ctx, gen, "gen")
     progflow.report(ctx, failures)
     return ctx.finish(rule=RULE, assumptions=ASSUME)
